@@ -1669,6 +1669,9 @@ Proof.
   destruct rest; [reflexivity|]. rewrite Hc. destruct (c2 _) as [[lid hh]| | | | | | | | |]; cbn [bind]; try reflexivity. apply IH.
 Qed.
 
+Lemma bind_ext {A B} (x : out A) (k1 k2 : A -> out B) : (forall a, k1 a = k2 a) -> bind x k1 = bind x k2.
+Proof. intros H. destruct x; simpl; auto. Qed.
+
 Theorem link_fuel_irrelevant f : forall fuel1 fuel2 nest pid name,
   nest <= 100 -> 101 <= Z.of_nat fuel1 + nest -> 101 <= Z.of_nat fuel2 + nest ->
   get_node_id R fuel1 f nest pid name = get_node_id R fuel2 f nest pid name.
@@ -1676,13 +1679,12 @@ Proof.
   induction fuel1 as [|fu1 IH]; intros fuel2 nest pid name Hn H1 H2; [cbn in H1; lia|].
   destruct fuel2 as [|fu2]; [cbn in H2; lia|]. cbn [get_node_id].
   destruct name as [|c rest]; [reflexivity|].
-  destruct (if c =? 47 then _ else _) as [id0| | | | | | | | |]; cbn [bind]; try reflexivity.
-  destruct (_ && _); [reflexivity|]. destruct (split_slash (c :: rest)) as [|t0 ts]; [reflexivity|].
   assert (Hc : forall x, chase_at R (get_node_id R fu1 f (nest + 1)) f nest x = chase_at R (get_node_id R fu2 f (nest + 1)) f nest x).
   { intros x. unfold chase_at. cbn [fx_nest repaired andb]. destruct (Z.geb_spec nest 100) as [G|G]; [reflexivity|].
     apply chase_loop_ext. intros a b. apply IH; lia. }
-  rewrite Hc. destruct (chase_at R (get_node_id R fu2 f (nest + 1)) f nest id0) as [[lid hh]| | | | | | | | |]; cbn [bind]; try reflexivity.
-  apply gni_tokens_ext. exact Hc.
+  apply bind_ext. intros id0. destruct (_ && _); [reflexivity|].
+  destruct (split_slash (c :: rest)) as [|t0 ts]; [reflexivity|].
+  rewrite Hc. apply bind_ext. intros [lid hh]. apply gni_tokens_ext. exact Hc.
 Qed.
 
 (* ADF_Get_Node_ID / ADFI_chase_link as the API calls them: any fuel from 101 (resp. 100) on gives the same answer *)
